@@ -592,6 +592,13 @@ theorem checkRstack_fk (cfg : Mcount.Cfg) (s : St) :
     · simp
   · simp
 
+/-- the flush at the TRACE_OFF update (repair of F-C07-TRACEOFF-FLUSH) only marks frames written -/
+@[simp] theorem traceOffFlush_fk (cfg : Mcount.Cfg) (s : St) (tr : Trigger) :
+    (traceOffFlush cfg s tr).frames.map fk = s.frames.map fk := by
+  rw [traceOffFlush_frames]; split
+  · exact recordTrace_fk _
+  · rfl
+
 theorem entryFilterCheck_fk (cfg : Mcount.Cfg) (s : St) (f : Nat) :
     (entryFilterCheck cfg s f).2.1.frames.map fk = s.frames.map fk ∧
     (entryFilterCheck cfg s f).2.1.over = s.over ∧
